@@ -856,6 +856,19 @@ pub fn for_each_case(entry: &str, thorough: bool, f: &mut dyn FnMut(&[u8])) {
 					f(&codec::tar_write(&m, codec::TarLayout { dot_prefix: false, dir_entries: false, gnu, reversed: false, meta_last: false }));
 				}
 			}
+			// member names with a multi-byte character at every byte offset relative to the end of the name (whatever
+			// a reader cuts off a name - extension, compression suffix, a fixed-size tail - is cut at a byte offset)
+			for m in ["\u{e9}", "\u{20ac}", "\u{1F600}"] {
+				for p in 0..=16usize {
+					for suffix in ["", ".png", ".txt", ".png.gz", "0123456789.png", "01234567.br"] {
+						let name = format!("{}{m}{suffix}", "a".repeat(p));
+						for path in [format!("3/1/{name}"), format!("3/{name}/2.png"), format!("{name}/1/2.png")] {
+							let mm: Vec<(String, Vec<u8>)> = vec![(path, b"data".to_vec()), ("3/1/2.png".into(), b"aaaa".to_vec())];
+							f(&codec::tar_write(&mm, codec::TarLayout { dot_prefix: false, dir_entries: false, gnu: false, reversed: false, meta_last: false }));
+						}
+					}
+				}
+			}
 			// a non-UTF-8 member name
 			let mut raw = codec::tar_write(&[("3/1/2.png".to_string(), b"aaaa".to_vec())], codec::TarLayout { dot_prefix: false, dir_entries: false, gnu: false, reversed: false, meta_last: false });
 			raw[0] = 0xff;
@@ -974,6 +987,16 @@ pub fn for_each_case(entry: &str, thorough: bool, f: &mut dyn FnMut(&[u8])) {
 				}
 				emit(&[(b"tiles.json.gz", meta), (b"3/1/2.png", b"aaaa")], f);
 				emit(&[(b"tiles.json.br", meta), (b"3/1/2.png", b"aaaa")], f);
+			}
+			for m in ["\u{e9}", "\u{20ac}", "\u{1F600}"] {
+				for p in 0..=16usize {
+					for suffix in ["", ".png", ".txt", ".png.gz", "0123456789.png", "01234567.br"] {
+						let name = format!("{}{m}{suffix}", "a".repeat(p));
+						for path in [format!("3/1/{name}"), format!("3/{name}/2.png"), format!("{name}/1/2.png")] {
+							emit(&[(path.as_bytes(), b"data"), (b"3/1/2.png", b"aaaa")], f);
+						}
+					}
+				}
 			}
 			emit(&[], f);
 		}
